@@ -96,3 +96,61 @@ REG.add(Contract(F_PT, 'Excel_PairTabulation._populate_worksheet',
     post_names=['A1-names-the-first-column', 'row-1-holds-the-labels-in-order', 'column-1-holds-the-grid', 'column-headed-by-a-label-holds-the-function-stored-under-that-label', 'no-other-cell-changed', 'same-sheet'],
     invariants={0: _pw_inv0, 1: _pw_inv1, 2: _pw_inv2}, definitions=sheet_axioms, on_raise=lambda v, old: [],
     carries=['post', 'preserve/0', 'preserve/1', 'preserve/2'], props=['C19', 'C04']))
+
+# ---------------------------------------------------------------- Excel_EAMTabulation._add_eam_embed / _add_eam_density: which (label, function) pairs on which grid
+from .eam_common import *
+from . import excel_eam as XE_                      # class table of Excel_EAMTabulation (C17: the workbook cache)
+from pyvc.spec import SpecSeq, SpecAcc
+from . import builders_eam as BE_                  # A4: sorted(set of str)
+REG.add_class(ClassDecl('<ext>', 'Workbook', {}, external=True))
+REG.add_class(ClassDecl(F_PT, 'Excel_PairTabulation', {}))
+_X = REG.classes['Excel_EAMTabulation']
+_X.fields.update({'_eam_potentials': T.List(T.Obj('EAMPotential')), '_nrho': T.Int, '_cutoff_rho': T.Real, '_nr': T.Int, '_cutoff': T.Real})
+XT = ObjSort('Excel_EAMTabulation_W')
+REG.add_class(ClassDecl(F_ET, 'Excel_EAMTabulation_W', {'_inner_tabulation': T.Obj('Excel_PairTabulation'), '_eam_potentials': T.List(T.Obj('EAMPotential')),
+                                                      '_nrho': T.Int, '_cutoff_rho': T.Real, '_nr': T.Int, '_cutoff': T.Real}, pyname='Excel_EAMTabulation'))
+x_eams = field('Excel_EAMTabulation_W', '_eam_potentials', EamList)
+x_nrho = field('Excel_EAMTabulation_W', '_nrho', IntS); x_crho = field('Excel_EAMTabulation_W', '_cutoff_rho', RealS)
+x_nr = field('Excel_EAMTabulation_W', '_nr', IntS); x_cut = field('Excel_EAMTabulation_W', '_cutoff', RealS)
+sheet_title = z3.Function('sheet_title', WS, StrS)
+EMPTYV = Val.VN
+def title_axioms():
+    S = z3.Const('S!t', WS); r, c = z3.Ints('r!t c!t'); v = z3.Const('v!t', Val)
+    return [z3.ForAll([S, r, c, v], sheet_title(put(S, r, c, v)) == sheet_title(S), patterns=[put(S, r, c, v)])]
+def _fresh_sheet(ws, title):
+    r, c = z3.Ints('r!f c!f')
+    return [sheet_title(ws) == title, z3.ForAll([r, c], cellv(ws, r, c) == EMPTYV, patterns=[cellv(ws, r, c)])]
+REG.add(Contract('<ext>', 'Workbook.create_sheet', params=[('self', T.Obj('Workbook')), ('title', T.Str)], result=T.Obj('Worksheet'),
+    ensures=lambda v, old, res: _fresh_sheet(res, v.title), external=True,
+    note=_A6 + 'wb.create_sheet(title): a new, empty sheet of that title appended to the workbook', props=['C19', 'C04']))
+# the grid generators: value k is k * cutoff / (n - 1)
+grid_seq = SpecSeq('excel_grid', [RealS, IntS], lambda cut, n, k: z3.Unit(real(k) * cut / (real(n) - 1)), result=RL, elem_len=1)
+# index of the LAST of the first t potentials whose species is s; -1 if none
+eam_find = SpecAcc('eam_find', [EamList, StrS], lambda es, s: z3.IntVal(-1), lambda es, s, t, prev: z3.If(EAM['species'](es[t]) == s, t, prev), result=IntS)
+def _label_dict(d, es, n, which):
+    """the dictionary built from the first n potentials: a species is a key iff some potential has it, and then it maps to the function of the LAST such potential"""
+    s = z3.String('s!ld'); i = eam_find(es, s, n)
+    return [z3.ForAll([s], z3.And(z3.Select(d.has, s) == (i >= 0), z3.Implies(i >= 0, z3.Select(d.get, s) == EAM[which](es[i]))), patterns=[z3.Select(d.has, s)])]
+def _sheet_post(which, title, first, cut, n):
+    def post(v, old, res):
+        es = x_eams(v.self); d = v.pot_dict; keys = v.column_heads
+        ws0 = z3.Const('created!' + title, WS)
+        return (_label_dict(d, es, z3.Length(es), which) + [keys == BE_.sorted_strs(d.has)] +
+                [z3.Exists([ws0], z3.And(*(_fresh_sheet(ws0, z3.StringVal(title)) + populated(v.ws, ws0, z3.StringVal(first), grid_seq(cut(v.self), n(v.self), n(v.self)), keys, d.get))))])
+    return post
+for _m, _which, _title, _first, _cut, _n in (('_add_eam_embed', 'embed', 'EAM-Embed', 'rho', x_crho, x_nrho), ('_add_eam_density', 'dens', 'EAM-Density', 'r', x_cut, x_nr)):
+    REG.add(Contract(F_ET, 'Excel_EAMTabulation.' + _m, params=[('self', T.Obj('Excel_EAMTabulation_W')), ('wb', T.Obj('Workbook'))],
+        requires=lambda v, _n=_n: [_n(v.self) >= 2],
+        ensures=_sheet_post(_which, _title, _first, _cut, _n),
+        invariants={0: lambda v, old, _which=_which: _label_dict(v.pot_dict, x_eams(v.self), v._i0, _which)},
+        ghost={'pot_dict': T.Dict(T.Str, T.Fn)}, definitions=lambda: sheet_axioms() + title_axioms() + BE_.sorted_axioms(), on_raise=lambda v, old: [],
+        carries=['post', 'preserve/0'], props=['C19']))
+
+# ---------------------------------------------------------------- the two grid generators (eager view: the list of the values they yield)
+for _f, _q, _n, _c in ((F_PT, '_r_value_iterator', x_nr, x_cut), (F_ET, '_rho_value_iterator', x_nrho, x_crho)):
+    REG.add(Contract(_f, _q, params=[('tabulation', T.Obj('Excel_EAMTabulation_W'))], requires=lambda v, _n=_n: [_n(v.tabulation) >= 2], result=T.List(T.Real), generator=True,
+        ensures=lambda v, old, res, _n=_n, _c=_c: [res == grid_seq(_c(v.tabulation), _n(v.tabulation), _n(v.tabulation))],
+        post_names=['value-k-is-k*cutoff/(n-1)-for-k-in-0..n-1'],
+        invariants={0: lambda v, old, _n=_n, _c=_c: [v.yielded == grid_seq(_c(v.tabulation), _n(v.tabulation), v._i0)]},
+        ghost={'yielded': T.Real}, carries=['post', 'preserve/0'], props=['C19', 'C11'],
+        note='verified for the EAM spreadsheet tabulation object (nr, cutoff, nrho, cutoff_rho are its read-only properties of the constructor arguments); the pair spreadsheet passes an object with the same two properties'))
